@@ -307,7 +307,7 @@ fn main() -> std::process::ExitCode {
         m.push_str(&body.join(","));
         m.push_str("},");
     };
-    map(&mut o, "ops", &mut c.counts.iter().map(|(k, v)| ((*k).to_string(), *v)));
+    map(&mut o, "ops", &mut c.sorted_counts().iter().map(|(k, v)| ((*k).to_string(), *v)));
     map(&mut o, "constructor_families", &mut c.ctor_families.iter().map(|(k, v)| (k.clone(), *v)));
     map(&mut o, "representation_classes", &mut c.repr_classes.iter().map(|(k, v)| (k.clone(), *v)));
     map(&mut o, "representation_pairs", &mut c.repr_pairs.iter().map(|(k, v)| (k.clone(), *v)));
@@ -339,10 +339,9 @@ fn main() -> std::process::ExitCode {
     o.push('}');
     println!("{o}");
     let failed = run.violation.is_some();
-    if !failed {
-        // every JsString is gone: give the run-time statics back so that leak checkers stay quiet
-        // SAFETY: no handle survives `Run::one`.
-        unsafe { run.arena.free() };
-    }
+    // Every JsString is gone (also after a violation or a caught panic: the handles are dropped on the
+    // way out of `check_string`): give the run-time statics back so that leak checkers stay meaningful.
+    // SAFETY: no handle survives `Run::one`.
+    unsafe { run.arena.free() };
     std::process::ExitCode::from(u8::from(failed))
 }
